@@ -678,13 +678,23 @@ def real_omega(a):
     return om
 
 
+def py_ids(a):
+    return a['ids'][0] if a.get('ids_str') and a['ids'] else a['ids']
+
+
 def real_analysis(a, fn):
     p = real_pulse(a['pulse'])
     S, om = real_spectrum(a['spectrum']), real_omega(a)
+    if fn == 'derivative':
+        return lambda: ff.infidelity_derivative(p, S, om, control_identifiers=a.get('c_ids'), n_oper_identifiers=py_ids(a))
+    if fn == 'cumulant':
+        return lambda: numeric.calculate_cumulant_function(p, S, om, n_oper_identifiers=py_ids(a), which=a['which'])
+    if fn == 'etm':
+        return lambda: numeric.error_transfer_matrix(p, S, om, n_oper_identifiers=py_ids(a))
     if fn == 'infidelity':
-        return lambda: ff.infidelity(p, S, om, n_oper_identifiers=a['ids'], which=a['which'], return_smallness=a['smallness'],
+        return lambda: ff.infidelity(p, S, om, n_oper_identifiers=py_ids(a), which=a['which'], return_smallness=a['smallness'],
                                      test_convergence=a['test_conv'])
-    return lambda: numeric.calculate_decay_amplitudes(p, S, om, n_oper_identifiers=a['ids'], which=a['which'])
+    return lambda: numeric.calculate_decay_amplitudes(p, S, om, n_oper_identifiers=py_ids(a), which=a['which'])
 
 
 def analysis_corruptions(a):
@@ -846,6 +856,49 @@ def cache_cases():
         flags = ['true' if k == i else 'false' for k in range(3)]
         out.append(('propagator-time-beyond-duration', 'validate_propagator_times %s' % lst(flags),
                     (lambda tt: (lambda: real_pulse(p_d).propagator_at_arb_t(np.array(tt))))(ts), ('ValueError',), 'c20-propagator-time-beyond-duration'))
+    return out
+
+
+# ------------------------------------------------------------------ one operator selected, spectrum with more rows
+def one_selected_bases():
+    """analysis descriptors with exactly one noise operator selected: by a single string, by a one-element list,
+    by a pulse that has a single noise operator"""
+    n_om = len(omega_tag(0))
+    two = dict(ispulse=True, d=2, basis=0, c=[dict(op=0, id='c0')], n=[dict(op=0, id='n0', sens=2 ** 30), dict(op=1, id='n1', sens=2 ** 31)],
+               dt=0, omega=None, cm=False, pc=False)
+    one = dict(two, n=[dict(op=0, id='n0', sens=2 ** 30)])
+    out = []
+    for tag, pulse, ids, as_str in (('str', two, ['n1'], True), ('list', two, ['n0'], False), ('single-operator-pulse', one, None, False)):
+        out.append((tag, dict(pulse=pulse, which='total', ids=ids, ids_str=as_str, spectrum=dict(kind='ANdarray', shape=[n_om], herm=True),
+                              omega_kind='ANdarray', omega_len=n_om, omega_tag=0, smallness=False, test_conv=False, omega_isdict=False,
+                              spacing='linear')))
+    return out
+
+
+def more_rows_cases():
+    """(group, name, model expression, callable, documented)"""
+    out = []
+    for tag, a in one_selected_bases():
+        n_om = a['omega_len']
+        shapes = [([n_om], ()), ([1, n_om], ()), ([1, 1, n_om], ())]
+        for k in (2, 3):
+            shapes += [([k, n_om], ('ValueError',)), ([k, k, n_om], ('ValueError',))]
+        for sh, doc in shapes:
+            c = copy.deepcopy(a)
+            c['spectrum']['shape'] = sh
+            nm = ('one-selected-%s' % tag) if doc == () else ('spectrum-more-rows-%s-%dd' % (tag, len(sh)))
+            lit = analysis_c(c)
+            q = dict(a=c, have_spectrum=True, have_omega=True, second_order=False, decay_given=False, shifts_given=False, shifts_shape_ok=True)
+            out.append(('infidelity', nm, 'validate_infidelity %s' % lit, real_analysis(c, 'infidelity'), doc, c))
+            out.append(('decay', nm, 'validate_decay_amplitudes %s' % lit, real_analysis(c, 'decay'), doc, c))
+            out.append(('cumulant', nm, 'validate_cumulant %s' % cumulant_c(q), real_analysis(c, 'cumulant'), doc, c))
+            out.append(('error-transfer-matrix', nm, 'validate_etm (Build_etm_d KNone true %s)' % cumulant_c(q), real_analysis(c, 'etm'), doc, c))
+            if len(sh) < 3:          # the derivative takes one spectrum per operator, no cross-spectra
+                out.append(('infidelity-derivative', nm, 'validate_infidelity_derivative %s %s None' % (lit, strs(['c0'])),
+                            real_analysis(c, 'derivative'), doc, c))
+            elif doc != ():
+                out.append(('infidelity-derivative', nm, 'validate_infidelity_derivative %s %s None' % (lit, strs(['c0'])),
+                            real_analysis(c, 'derivative'), doc, c))
     return out
 
 
@@ -1023,6 +1076,8 @@ def collect_cases(ctx, thorough):
             col.case('error-transfer-matrix', nm, lit, call, doc, dict(expr=lit))
         for nm, c, doc in infidelity_option_cases(a):
             col.case('infidelity', nm, 'validate_infidelity %s' % analysis_c(c), real_analysis(c, 'infidelity'), doc, c)
+    for group, nm, lit, call, doc, c in more_rows_cases():
+        col.case(group, nm, lit, call, doc, c)
     for nm, lit, call, doc, sig in cache_cases():
         col.case('misc', nm, lit, call, doc, dict(expr=lit), sig)
     for nm, lit, call, doc, *sig in small_cases(r):
@@ -1076,6 +1131,10 @@ def realise(group, d):
         return real_remap(d)
     if group in ('infidelity', 'decay'):
         return real_analysis(d, group)
+    if group in ('infidelity-derivative', 'error-transfer-matrix') and 'spectrum' in d:
+        return real_analysis(d, 'derivative' if group == 'infidelity-derivative' else 'etm')
+    if group == 'cumulant' and 'spectrum' in d:
+        return real_analysis(d, 'cumulant')
     if group == 'cumulant':
         return real_cumulant(d)
     return None
